@@ -9,6 +9,7 @@ import (
 	"os"
 	"path/filepath"
 	"strings"
+	"sync"
 	"testing"
 
 	"verif/harness/h"
@@ -404,6 +405,167 @@ var prop = h.Prop[Spec]{
 func TestProp(t *testing.T) { h.Run(t, prop) }
 
 // ---------------------------------------------------------------------------
+// Several files of ONE validating pool written at the same time: the writers are opened one after the other
+// (GetWriter is not meant to be called concurrently) and then each file is written by its own goroutine.
+// Every writer must judge its own file exactly as it would alone. Also run under the race detector.
+
+type ParSpec struct {
+	Blocks []int `json:"blocks"`           // per file: size in blocks (plus Tail bytes)
+	Tail   int   `json:"tail"`             // bytes after the last full block (0: block multiple)
+	Bad    []int `json:"bad,omitempty"`    // per file (cyclic): -1 written == signed, k >= 0: block k (mod blocks) has a flipped byte
+	Slice  int   `json:"slice"`            // write size
+	Wounds bool  `json:"wounds,omitempty"` // wound mode instead of error mode
+}
+
+type lockedPool struct {
+	*recPool
+	mu sync.Mutex
+}
+
+type lockedW struct {
+	p *lockedPool
+	i int64
+}
+
+func (w *lockedW) Write(b []byte) (int, error) {
+	w.p.mu.Lock()
+	defer w.p.mu.Unlock()
+	return w.p.got[w.i].Write(b)
+}
+func (w *lockedW) Close() error { return nil }
+func (p *lockedPool) GetWriter(i int64) (io.WriteCloser, error) {
+	p.mu.Lock()
+	defer p.mu.Unlock()
+	p.got[i] = new(bytes.Buffer)
+	return &lockedW{p, i}, nil
+}
+
+func checkParallel(s ParSpec) h.Result {
+	c := &tlc.Container{}
+	sctx := wsync.NewContext(B)
+	var hs []wsync.BlockHash
+	var signed, written [][]byte
+	for i, nb := range s.Blocks {
+		sb := h.Content{{Src: 1 + i%6, Off: i * 977, Len: nb*B + s.Tail}}.Bytes()
+		wb := append([]byte{}, sb...)
+		if len(s.Bad) > 0 {
+			if k := s.Bad[i%len(s.Bad)]; k >= 0 && len(wb) > 0 {
+				wb[(k%(nb+1))*B%len(wb)] ^= 0x20
+			}
+		}
+		signed, written = append(signed, sb), append(written, wb)
+		c.Files = append(c.Files, &tlc.File{Path: fmt.Sprintf("f%d", i), Size: int64(len(sb)), Mode: 0o644})
+		c.Size += int64(len(sb))
+		if err := sctx.CreateSignature(context.Background(), int64(i), bytes.NewReader(sb), func(bh wsync.BlockHash) error { hs = append(hs, bh); return nil }); err != nil {
+			return h.Failf("CreateSignature: %v", err)
+		}
+	}
+	inner := &lockedPool{recPool: &recPool{c: c, got: map[int64]*bytes.Buffer{}, closed: map[int64]int{}}}
+	vp := &pwr.ValidatingPool{Pool: inner, Container: c, Signature: &pwr.SignatureInfo{Container: c, Hashes: hs}}
+	var wmu sync.Mutex
+	wounded := map[int64][]*pwr.Wound{}
+	var relayDone chan struct{}
+	if s.Wounds {
+		vp.Wounds = make(chan *pwr.Wound)
+		relayDone = make(chan struct{})
+		go func() {
+			for w := range vp.Wounds {
+				if w.Kind == pwr.WoundKind_FILE {
+					wmu.Lock()
+					wounded[w.Index] = append(wounded[w.Index], w)
+					wmu.Unlock()
+				}
+			}
+			close(relayDone)
+		}()
+	}
+	ws := make([]io.WriteCloser, len(s.Blocks))
+	for i := range s.Blocks {
+		w, err := vp.GetWriter(int64(i))
+		if err != nil {
+			return h.Failf("GetWriter(%d): %v", i, err)
+		}
+		ws[i] = w
+	}
+	errs := make([]error, len(ws))
+	var wg sync.WaitGroup
+	for i := range ws {
+		wg.Add(1)
+		go func(i int) {
+			defer wg.Done()
+			wr := written[i]
+			n := s.Slice
+			if n < 1 {
+				n = 1
+			}
+			for pos := 0; pos < len(wr) && errs[i] == nil; pos += n {
+				end := pos + n
+				if end > len(wr) {
+					end = len(wr)
+				}
+				_, errs[i] = ws[i].Write(wr[pos:end])
+			}
+			if cerr := ws[i].Close(); errs[i] == nil {
+				errs[i] = cerr
+			}
+		}(i)
+	}
+	wg.Wait()
+	if s.Wounds {
+		close(vp.Wounds)
+		<-relayDone
+	}
+	cl := []string{"parallel:writers-of-one-pool"}
+	for i := range ws {
+		same := bytes.Equal(signed[i], written[i])
+		name := fmt.Sprintf("file %d of %d written at the same time through one validating pool (%d bytes)", i, len(ws), len(written[i]))
+		if s.Wounds {
+			if same && len(wounded[int64(i)]) > 0 {
+				w := wounded[int64(i)][0]
+				return h.Result{Fail: fmt.Sprintf("%s equals its signed content, but [%d,%d) was reported as a wound", name, w.Start, w.End), Classes: cl}
+			}
+			if !same && len(wounded[int64(i)]) == 0 {
+				return h.Result{Fail: fmt.Sprintf("%s differs from its signed content in one block, but no wound was reported for it", name), Classes: cl}
+			}
+			continue
+		}
+		if same && errs[i] != nil {
+			return h.Result{Fail: fmt.Sprintf("%s equals its signed content, but was rejected: %v", name, errs[i]), Classes: cl}
+		}
+		if !same && errs[i] == nil {
+			return h.Result{Fail: fmt.Sprintf("%s differs from its signed content in one block, but neither Write nor Close failed", name), Classes: cl}
+		}
+		if same && !bytes.Equal(inner.got[int64(i)].Bytes(), written[i]) {
+			return h.Result{Fail: fmt.Sprintf("%s was accepted but did not pass through unchanged", name), Classes: cl}
+		}
+	}
+	if s.Wounds {
+		cl = append(cl, "mode:wounds")
+	} else {
+		cl = append(cl, "mode:error")
+	}
+	return h.Result{Classes: cl, NonTrivial: len(ws) >= 2}
+}
+
+var propParallel = h.Prop[ParSpec]{
+	ID: "C18", Name: "parallel",
+	Gen: func(t *rapid.T) ParSpec {
+		s := ParSpec{Tail: rapid.SampledFrom([]int{0, 0, 1, 777}).Draw(t, "tail")}
+		n := rapid.IntRange(2, 6).Draw(t, "nfiles")
+		for i := 0; i < n; i++ {
+			s.Blocks = append(s.Blocks, rapid.IntRange(1, 24).Draw(t, "blocks"))
+		}
+		s.Bad = rapid.SliceOfN(rapid.SampledFrom([]int{-1, -1, -1, 0, 3, 100}), 1, 4).Draw(t, "bad")
+		s.Slice = rapid.SampledFrom([]int{4096, 32768, B, B + 1, 3 * B}).Draw(t, "slice")
+		s.Wounds = rapid.IntRange(0, 2).Draw(t, "wounds") == 0
+		return s
+	},
+	Check: checkParallel,
+}
+
+func TestParallel(t *testing.T) { h.Run(t, propParallel) }
+
+// ---------------------------------------------------------------------------
 // the same pool driven the way its real caller drives it: a patch applied
 // through a pool bowl whose output pool is a ValidatingPool over the new
 // build's signature. The write slicing is whatever the patcher produces
@@ -632,5 +794,5 @@ var propPatcher = h.Prop[PatchSpec]{
 func TestViaPatcher(t *testing.T) { h.Run(t, propPatcher) }
 
 func TestReplay(t *testing.T) {
-	h.ReplayMain(t, map[string]h.Replayer{"validatingpool": h.ReplayerOf(prop), "viapatcher": h.ReplayerOf(propPatcher)})
+	h.ReplayMain(t, map[string]h.Replayer{"validatingpool": h.ReplayerOf(prop), "viapatcher": h.ReplayerOf(propPatcher), "parallel": h.ReplayerOf(propParallel), "parallelrace": h.ReplayerOf(propParallel)})
 }
